@@ -11,11 +11,13 @@ from simkit.runner import RunOutcome
 
 
 def small_config(ch: Choices) -> GenConfig:
-    feats = set(ALL_FEATURES) - {"forkjoin", "async"}
+    feats = (set(ALL_FEATURES) | {"noprov"}) - {"forkjoin", "async"}
+    # (prov=False subtrees: their tasks get recorded only with an ancestor's call node)
     return GenConfig(
         features=feats, p_error=0.3, modes=("thread", "thread", "process"), p_dup=0.2,
         max_tasks=5, max_depth=2, max_fanout=2,
-        task_options=[{"check_valid": "shallow"}, {"tags": [("kt", 9)]}], p_task_option=0.2,
+        task_options=[{"check_valid": "shallow"}, {"tags": [("kt", 9)]}, {"prov": False}],
+        p_task_option=0.3,
     )
 
 
@@ -120,6 +122,15 @@ class C22(EngineACheck):
                 if bad:
                     out.violate("C22.references_after_recovery", f"{bad[0][0]}@{site}",
                                 {"k": k, "violations": bad[:5]})
+                    continue
+                # nothing lost for good: after the recovery execution every call node lists its
+                # own task and everything its recorded children list
+                from checks.c03 import subtree_closure_violations
+
+                lost = subtree_closure_violations(db)
+                if lost:
+                    out.violate("C22.references_after_recovery", f"subtree-rows:{lost[0][0]}@{site}",
+                                {"k": k, "violations": lost[:5]})
 
             # ---- crash inside value-store writes (the backend's other durable store) ----
             if ch.coin(0.5, "value-store-part"):
